@@ -181,6 +181,9 @@ def gen_cases(rng, tier):
     c = _case(rng, {"t": "naive", "strategy": "mean", "sp": 1, "wl": 3})
     c.update(n=8, updates=[2], update_params=True, fh_at="predict")
     cases.append(c)
+    c = _case(rng, {"t": "naive", "strategy": "mean", "sp": 4, "wl": None})
+    c.update(n=2, updates=[], update_params=False, fh=[1, 2, 3, 4])
+    cases.append(c)
     if not quick:
         cases += exhaustive_cases()
     return cases
@@ -295,6 +298,35 @@ def _build(fc):
     raise AssertionError(t)
 
 
+def _fh_independent(fc):
+    """The forecast for a step does not depend on which other steps are requested."""
+    t = fc["t"]
+    if t == "stack":
+        return False                      # the hold-out window is len(fh) long
+    if t == "reduce":
+        return fc["strategy"] != "dirrec"   # dirrec feeds earlier requested steps forward
+    if t in ("ensemble", "multiplex"):
+        return all(_fh_independent(m) for m in fc["members"])
+    if t == "ttf":
+        return _fh_independent(fc["final"])
+    return True
+
+
+def _deseasonalized(fc):
+    t = fc["t"]
+    if t == "theta":
+        return fc["sp"] > 1
+    if t == "ttf":
+        return "deseason" in fc["tr"] or _deseasonalized(fc["final"])
+    if t in ("ensemble", "multiplex", "stack"):
+        return any(_deseasonalized(m) for m in fc["members"])
+    return False
+
+
+def _is_gapped(fh):
+    return fh != list(range(1, len(fh) + 1))
+
+
 def _run_program(case, shift):
     """fit ; update* ; predict on the series whose index is shifted by `shift`."""
     import numpy as np
@@ -340,7 +372,11 @@ def _run_program(case, shift):
 def run_impl(case):
     import warnings
     warnings.simplefilter("ignore")
-    return {"a": _run_program(case, 0), "b": _run_program(case, case["k"])}
+    out = {"a": _run_program(case, 0), "b": _run_program(case, case["k"])}
+    if _is_gapped(case["fh"]) and _fh_independent(case["fc"]) and "err" not in out["a"]:
+        # the same program asked for every step up to the furthest requested one
+        out["c"] = _run_program(dict(case, fh=list(range(1, case["fh"][-1] + 1))), 0)
+    return out
 
 
 # ------------------------------------------------------------------------------------------------
@@ -412,7 +448,14 @@ def _check_run(case, out, shift, tag):
     if any(b <= a for a, b in zip(out["index"], out["index"][1:])):
         return "increasing-time-order%s: %s" % (tag, out["index"])
     if any(v is None or isinstance(v, str) for v in out["vals"]):
-        return "finite-for-finite-data%s: %s" % (tag, out["vals"])
+        fc, total = case["fc"], case["n"] + sum(case["updates"])
+        why = ""
+        if fc["t"] == "naive" and fc["wl"] is None and not case["update_params"]:
+            if fc["strategy"] == "drift" and case["n"] == 1:
+                why = "-drift-single-observation"
+            elif fc["strategy"] == "mean" and fc["sp"] > case["n"]:
+                why = "-seasonal-mean-series-shorter-than-season"
+        return "finite-for-finite-data%s%s: %s" % (why, tag, out["vals"])
     return None
 
 
@@ -430,6 +473,18 @@ def oracle(case, out):
         if not _close(_fr(x), _fr(y)):
             return "shift-values-changed: step %d: %s on y, %s on y shifted by %d" % (
                 r, float(_fr(x)), float(_fr(y)), case["k"])
+    c = out.get("c")
+    if c is not None:
+        tag = "-deseasonalized" if _deseasonalized(case["fc"]) else ""
+        if "err" in c:
+            return "raised-for-contiguous-horizon: %s at %s: %s" % (c["err"], c["stage"], c["msg"][:100])
+        dense = dict(zip(c["index"], c["vals"]))
+        for r, lab, x in zip(case["fh"], a["index"], a["vals"]):
+            if lab not in dense or not _close(_fr(x), _fr(dense[lab])):
+                return ("gapped-horizon-values-differ%s: step %d (label %d): %s when requested "
+                        "within %s, %s when every step up to %d is requested" % (
+                            tag, r, lab, float(_fr(x)), case["fh"],
+                            None if lab not in dense else float(_fr(dense[lab])), case["fh"][-1]))
     return None
 
 
